@@ -87,7 +87,21 @@ def parseHex (t : String) : Option (List Byte) :=
 
 def parseLeave (t : String) : Option Leave :=
   if t = "fall" then some .fall else if t = "cont" then some .cont else if t = "brk" then some .brk
-  else if t = "throw" then some .throw else none
+  else if t = "throw" then some .throw else if t = "ret" then some .ret else none
+
+/-- 0: the object is closed or the only holder of an open handle; 1: it shares an open handle with another object;
+    2: it holds a handle that is not open any more (the region of KF-C20-copy-aliases-handle: only close / stop / del /
+    tell / eof — and on a dead handle flush / seek / read / write — are executed, by both sides) -/
+def sharedState (s : Sys) (o : Nat) : Nat :=
+  match s.obj o with
+  | some (some h) =>
+    if (lookup h s.lib.streams).isNone then 2
+    else if (s.objs.filter (fun p => p.2 == some h)).length > 1 then 1 else 0
+  | _ => 0
+
+def sharedAllowed (sh : Nat) (op : String) : Bool :=
+  op = "close" || op = "stop" || op = "del" || op = "tell" || op = "eof" ||
+  (sh = 2 && (op = "flush" || op = "seek" || op = "read" || op = "write" || op = "writehex"))
 
 def isOpen (s : Sys) (o : Nat) : Bool := match s.obj o with | some (some _) => true | _ => false
 
@@ -181,6 +195,18 @@ where
         | _, _ => bad
       | _ => bad
     else
+    if op = "new1" then
+      -- new(File, $S(path)): exactly one constructor argument
+      if o < nStack || (s.obj o).isSome then return ← bad
+      match rest with
+      | [ks] =>
+        match ks.toNat? with
+        | some k =>
+          if !fileOk k then return ← bad
+          return (← simple s o "new1" (.new1 k) none, i + 1)
+        | none => bad
+      | _ => bad
+    else
     if op = "withnew" || op = "withnew0" || op = "withcall" then
       if o < nStack || (s.obj o).isSome then return ← bad
       match rest with
@@ -203,6 +229,33 @@ where
     else
     if (s.obj o).isNone then return ← bad
     let nargs := rest.length
+    if op = "copy" then
+      -- copy <src> <dst>: File has no Copy instance, copy = assign(alloc(File), src) = memcpy
+      match rest with
+      | [ds] =>
+        match ds.toNat? with
+        | some dst =>
+          if dst < nStack || dst ≥ nObj || (s.obj dst).isSome then return ← bad
+          match s.exec dst (.copy o) with
+          | none => bad
+          | some (s', r) => emit s' dst "copy" (excText r.out) "" r.calls; return (s', i + 1)
+        | none => bad
+      | _ => bad
+    else if op = "assign" then
+      -- assign <dst> <src>: File has no Assign instance, assign = memcpy(dst, src, size)
+      match rest with
+      | [ss] =>
+        match ss.toNat? with
+        | some src =>
+          if src ≥ nObj || (s.obj src).isNone || src = o then return ← bad
+          match s.exec o (.assign src) with
+          | none => bad
+          | some (s', r) => emit s' o "assign" (excText r.out) "" r.calls; return (s', i + 1)
+        | none => bad
+      | _ => bad
+    else
+    let sh := sharedState s o
+    if sh ≠ 0 && !sharedAllowed sh op then IO.println s!"O {op} unsup"; return (s, i + 1)
     if op = "del" then
       if o < nStack || nargs ≠ 0 || s.inWith.contains o then return ← bad
       return (← simple s o "del" .del none, i + 1)
@@ -326,6 +379,9 @@ where
       | .brk =>
         emit s1 o "with-break" "none" "" []
         return ({ s1 with ev := s1.ev ++ [.left leave] }, stop)
+      | .ret =>
+        emit s1 o "with-return" "none" "" []
+        return ({ s1 with ev := s1.ev ++ [.left leave] }, stop)
       | _ =>
         let c := stepClause refIO cfg cfgW s1.m src x
         let s2 := { s1 with m := c.m, ev := s1.ev ++ c.evs }
@@ -364,6 +420,8 @@ def main (args : List String) : IO Unit := do
   -- the model's own verdict on its log (used when a proof no longer checks): every object's calls well bracketed
   let okTrack := (List.range nObj).all (fun o => (track none (proj o s.m.log)).isSome)
   IO.println s!"R bracketed={okTrack}"
+  -- … and over handles, for the log of the whole process (rejects a handle used by two objects)
+  IO.println s!"R gbracketed={(gtrack [] (untag s.m.log)).isSome} fresh={freshCalls [] (untag s.m.log)}"
   -- … and on the events of its with loops: every source expression evaluated once, every stop_in on the loop variable
   IO.println s!"R withproto={(wtrack ([], none) s.ev) == some ([], none)}"
   IO.println s!"S reads={s.nontrivial}"
